@@ -254,6 +254,9 @@ class Interp:
                 return p.t
             if isinstance(p, tuple) and ty is not None:
                 return self.lift_list(p, ty).t
+        if isinstance(v, SOpt):
+            # an optional used where python needs a value: None raises TypeError (decided like any safety check)
+            return self.term_of(self.force_some(v), ty)
         raise Unsupported('term_of %r' % (v,))
 
     def type_of_value(self, v):
